@@ -196,7 +196,15 @@ def gen_project(dim, full=False):
     else:
         L.append(bl)
     inc_expr = ['B', 'A[0]', "'in.txt'", '[B, A]', "'in.txt'"][in_c]
-    L.append("C = custom_target('C', input : %s, output : ['c1.txt', 'c2.txt'], command : %s, %s'@INPUT@', '@OUTPUT@'], build_always_stale : SC, install : IC, install_dir : ['share', false])" % (inc_expr, PYCMD, 'A[IA], ' if in_c == 4 else ''))
+    # odd names of what is INSTALLED: two outputs of one target whose names differ only in letter case (each with its own install_dir), and a directory
+    # installed under a name that ends with a slash (with and without strip_directory)
+    twins = vary_in and in_b == 0 and in_c in (0, 2) and choose(2, 'outputs of C that differ only in case') == 1
+    c_outs, c_dirs = (['c1.txt', 'C1.txt'], "['share', 'lib']") if twins else (['c1.txt', 'c2.txt'], "['share', false]")
+    sdk = choose(4, 'install_subdir') if (vary_in and in_b == 0 and in_c in (0, 2)) else 0          # 1: 'tree', 2: 'tree/', 3: 'tree/' with strip_directory
+    if sdk:
+        files['tree/f.txt'] = ''
+        L.append("install_subdir('%s', install_dir : 'share/x'%s)" % (['', 'tree', 'tree/', 'tree/'][sdk], ', strip_directory : true' if sdk == 3 else ''))
+    L.append("C = custom_target('C', input : %s, output : %r, command : %s, %s'@INPUT@', '@OUTPUT@'], build_always_stale : SC, install : IC, install_dir : %s)" % (inc_expr, c_outs, PYCMD, 'A[IA], ' if in_c == 4 else '', c_dirs))
     bare = vary_in and in_b == 0 and in_c == 0 and choose(2, 'a program given as a bare command name with arguments') == 1
     if bare:
         from mesonbuild import programs
@@ -220,7 +228,9 @@ def gen_project(dim, full=False):
     # ---- expected facts (reference, from the description above and the documentation of the functions used)
     ia = concretize_int(PS['IA']) if is_sym(PS['IA']) else PS['IA']
     a_outs = [odir + x for x in a_outs]
-    outs = {'A': a_outs, 'B': [bdir + 'b.txt'], 'C': [odir + 'c1.txt', odir + 'c2.txt']}
+    outs = {'A': a_outs, 'B': [bdir + 'b.txt'], 'C': [odir + x for x in c_outs]}
+    pr.c_dest = ['share/c1.txt', 'lib/C1.txt'] if twins else ['share/c1.txt', None]          # where install puts each output of C (None: not installed)
+    pr.subdir_dest = [None, 'share/x/tree', 'share/x/tree', 'share/x'][sdk]
     def target_of(x): return None if x is None else x[0]
     pr.outs = outs
     pr.ins = {'A': [], 'C': [outs['B'], [a_outs[0]], ['../src/in.txt'], outs['B'] + a_outs, ['../src/in.txt']][in_c]}
